@@ -191,6 +191,8 @@ struct Stats {
     est: u64,
     est_panics: u64,
     scen_panics: u64,
+    outscored_but_default: u64,
+    default_checks: u64,
 }
 
 /// the learn units the statement requires to be recorded (as the code groups them; see Props/C08 `learnUnits`)
@@ -397,6 +399,36 @@ fn default_of(s: &mut Sess, out: &mut Out, key: &[u16]) -> String {
     shown
 }
 
+/// the pre-survey's proviso, computed on the merged dictionary: does some segmentation of `key` into two phrases
+/// (or into single characters) score above the single whole-range interval carrying a phrase of frequency `fx`?
+fn split_outscores(s: &mut Sess, key: &[u16], fx: u32) -> bool {
+    let n = key.len() as i64;
+    if n < 2 {
+        return false;
+    }
+    let single = 1000 * n + 1000 * 6 * n + fx as i64;
+    let best = |s: &mut Sess, k: &[u16]| -> Option<i64> {
+        let m = s.merged(k);
+        m.values().max().map(|f| if k.len() == 1 { (*f / 512) as i64 } else { *f as i64 })
+    };
+    for j in 1..key.len() {
+        if let (Some(a), Some(b)) = (best(s, &key[..j]), best(s, &key[j..])) {
+            let spread = (j as i64 - (key.len() - j) as i64).abs();
+            if 1000 * n + 1000 * (6 * n / 2) - 100 * spread + a + b > single {
+                return true;
+            }
+        }
+    }
+    let mut sum = 0;
+    for c in key {
+        match best(s, &[*c]) {
+            Some(f) => sum += f,
+            None => return false,
+        }
+    }
+    1000 * n + 1000 * (6 * n / n) + sum > single
+}
+
 /// repeat "type the syllables, choose X, commit" until X is the default of the bare syllables
 fn becomes_default(s: &mut Sess, out: &mut Out, st: &mut Stats, rng: &mut Rng, key: &[u16], x: &str, max_reps: usize) {
     let m0 = s.merged(key);
@@ -445,6 +477,12 @@ fn becomes_default(s: &mut Sess, out: &mut Out, st: &mut Stats, rng: &mut Rng, k
         let fx = *m.get(x).unwrap_or(&0);
         let strict_top = m.iter().all(|(t, f)| t == x || *f < fx);
         let d = default_of(s, out, key);
+        if strict_top {
+            st.default_checks += 1;
+            if d == x && split_outscores(s, key, fx) {
+                st.outscored_but_default += 1;
+            }
+        }
         if strict_top && d != x {
             // the strictly most frequent phrase of the whole range is not the default: there is no competing
             // segmentation proviso left in the code (trim_paths drops every path the single interval contains)
@@ -567,6 +605,27 @@ fn gen_dict(rng: &mut Rng) -> Built {
         }
         if texts.len() >= 2 {
             multi_keys.push(key);
+        }
+    }
+    // compound keys: the concatenation of two phrase keys gets (rarer) phrases of its own, so that a competing
+    // segmentation into two frequent phrases exists and out-scores the whole-range phrase
+    let phrase_keys: Vec<Key> = seen_keys.iter().cloned().collect();
+    if phrase_keys.len() >= 2 && rng.chance(1, 2) {
+        let k1 = rng.pick(&phrase_keys).clone();
+        let k2 = rng.pick(&phrase_keys).clone();
+        let key: Key = k1.iter().chain(k2.iter()).cloned().collect();
+        if key.len() <= 8 && seen_keys.insert(key.clone()) {
+            let mut texts: BTreeSet<String> = BTreeSet::new();
+            for _ in 0..(2 + rng.below(2)) {
+                let t: String = key.iter().map(|_| *rng.pick(&plain)).collect();
+                if texts.insert(t.clone()) {
+                    l0.push((key.clone(), t, rng.below(200) as u32));
+                }
+            }
+            if texts.len() >= 2 {
+                multi_keys.push(key.clone());
+                multi_keys.push(key);
+            }
         }
     }
     // pre-existing user entries (some shadow a system phrase, some are new homophones)
@@ -892,7 +951,7 @@ fn main() {
         commits: 0, commits_disabled: 0, commits_file: 0, units_multi: 0, units_run: 0, units_run_len2: 0, units_break: 0,
         singles_in_run: 0, non_phrase_ivs: 0, first_time: 0, updates: 0, default_loops: 0, default_reached: 0, max_reps: 0,
         rep_hist: BTreeMap::new(), cand_checks: 0, reopen_checks: 0, gap_small: 0, gap_mid: 0, gap_large: 0, ties: 0,
-        est: 0, est_panics: 0, scen_panics: 0,
+        est: 0, est_panics: 0, scen_panics: 0, outscored_but_default: 0, default_checks: 0,
     };
     est_grid(&mut rng, &mut out, &mut st, thorough);
 
@@ -934,5 +993,7 @@ fn main() {
     out.stat("candidate_checks", st.cand_checks);
     out.stat("reopen_checks", st.reopen_checks);
     out.stat("scenario_panics", st.scen_panics);
+    out.stat("default_checks_with_strict_top", st.default_checks);
+    out.stat("default_is_x_although_a_split_outscores_it", st.outscored_but_default);
     out.flush();
 }
